@@ -230,6 +230,9 @@ func checkC19(w *World, r *Report) {
 		r.Check(hasPrefix && trims && reval, "R19.4", "isIdentityrefSimpleFormValid", sfd.Pos(), "value must start with <module>: ; exactly that prefix is removed; the remainder is validated again", "the namespace-qualified form is accepted when the qualifier merely starts with the module name (or is not re-validated): a value naming a non-existent identity is rewritten into a valid one")
 	})
 
+	r.Rule("R19.6", "no error is forgotten while decoding or encoding: in data/encoding every error result bound to a variable is examined", 1)
+	r.guard("R19.6", func() { errRule(w, r, "R19.6", []string{"data/encoding"}, nil) })
+
 	r.Rule("R19.5", "the JSON writer emits well-formed, faithfully escaped text: every string-like value goes through json.Marshal (no hand-written quoting), and in every arm of the child encoder the '[' / '{' written are closed on every path", 6)
 	r.guard("R19.5", func() {
 		wv := w.Method("data/encoding", "JSONWriter", "writeValue")
